@@ -50,6 +50,10 @@ CLAIMS = {
   text="Coq theorem C14 (C14_any_world, C14_for_the_code): for any number of threads, any scripts of provider-level steps (split exactly where a call hands back a destination or copy plan and the glue copies afterwards) and EVERY schedule, each thread's observations equal those of its script running alone - by induction on the schedule, no bound - for the model instantiated with the placement the REGENERATED statics table gives to the log return area, under the hypothesis that every mutable static is thread-local, which is decided by vm_compute on that table (Ctx/StaticsOk.v; C14_refuted_global shows the three-step interference when the area is global, which was the code's state before the repair of finding F7). Correspondence: 2-3 real OS threads under a baton scheduler, all interleavings of short scripts enumerated (sampled above the tier's limit), per-thread observations compared with the model and with solo runs.",
   note="Trusted: Coq kernel; translator T5; hand-written Ctx/Threads.v (sequentially consistent; no weak memory, true data races are not exhibited by a baton scheduler).",
   ref="DESIGN.md §6 C14"),
+ "C11": dict(
+  text="Coq corollaries of C01 and C06 plus the transcribed accessor logic (Api/ApiLen.v): C11_inline (the inline field of a string/array/object handle of true length n is min(n, MAX_VALUE_LENGTH W), for W in {32,64}; C11_limit_32: the limit is exactly 2^14-1 on the Wasm width), C11_api_len (for every true length below usize::MAX, below, at or above the limit, Value::array_len/obj_len/as_string select the true length), C11_answer_true_length / C11_len_query / C11_no_length (the eager spec's answers carry true lengths, the length query returns them, values without a length answer usize::MAX = -1), C11_reader (= C01: the lazy reader returns exactly those answers for every document, path and history). Correspondence: documents with strings/arrays/maps of 0..40, 255/256, 2^14-3..2^14+2, 65535/65536/70000 elements reached by every access path, read through the api::Value accessors and the raw calls.",
+  note="Trusted: as C01/C06. On the 64-bit host the sentinel branch of the accessors is unreachable (limit 2^46-1): it is covered by the theorems at W=32 and, against the real crates, only by the Miri/i686 run of the thorough tier when available.",
+  ref="DESIGN.md §6 C11"),
 }
 
 
